@@ -224,6 +224,13 @@ class Box(Packet):
     t = Int(1)
     l = Ref(Len)
     u = Int(1)
+class Pt(Packet):
+    x = Int(1)
+    y = Int(1)
+class Emb(Packet):
+    h = Int(1)
+    point = Ref(Pt, embed=True)
+    t = Int(1)
 ''')], histories=[
         [['parse', 'p0', 'DelimX', b'abXXX\x01'.hex()], ['parse', 'p1', 'DelimX', b'cdX\x02'.hex()]],
         [['parse', 'p0', 'Sel', b'\x03\x07'.hex()], ['parse', 'p1', 'Sel', b'\x03\x09'.hex()]],
@@ -238,6 +245,9 @@ class Box(Packet):
         [['new', 'p0', 'LenL', {"p": "LenL", "f": [["a", {"x": b'ab'.hex()}]]}], ['set', 'p0', ['a'], {"x": b'abcd'.hex()}], ['pack', 'p0'], ['set', 'p0', ['a'], {"x": b'q'.hex()}], ['pack', 'p0']],
         [['new', 'p0', 'Box', {"p": "Box", "f": [["t", 7]]}], ['set', 'p0', ['l', 'a'], {"x": b'xyz'.hex()}], ['pack', 'p0'], ['set', 'p0', ['l', 'a'], {"x": b'x'.hex()}], ['pack', 'p0'],
          ['new', 'p1', 'Box', {"p": "Box", "f": []}], ['share', 'p1', ['l'], 'p0', ['l']], ['pack', 'p1'], ['set', 'p0', ['l', 'a'], {"x": b'12345'.hex()}], ['pack', 'p1'], ['pack', 'p0']],
+        # embed=True: the fields of the embedded packet live in the outer one; the placeholder attribute is still a packet of its own
+        [['new', 'p0', 'Emb', {"p": "Emb", "f": []}], ['new', 'p1', 'Emb', {"p": "Emb", "f": []}], ['set', 'p0', ['point', 'y'], 9], ['pack', 'p1'],
+         ['new', 'p2', 'Emb', {"p": "Emb", "f": []}], ['set', 'p1', ['y'], 5], ['pack', 'p0'], ['pack', 'p2']],
     ], threads=dict(cls='Two', raws=[bytes([n] + list(range(n)) + [m] + list(range(m))).hex() for n in range(1, 5) for m in range(1, 3)],
                     rounds=300 if tier == 'quick' else 20000))
     parts = shard(payload_groups, max(1, len(payload_groups) // NPROC + 1))
@@ -376,7 +386,7 @@ class Box(Packet):
                                      model=[om[0]] + norm(om[1:]), implementation=[oi[0]] + norm(oi[1:])))
                 break
     pres = results[-1]['groups'][0]
-    names = ['D8 regex delimiter remembered on the shared field object', 'D9 a deferred selector returns the same packet object to every parse', None, None, None, None, None, None, None]
+    names = ['D8 regex delimiter remembered on the shared field object', 'D9 a deferred selector returns the same packet object to every parse', None, None, None, None, None, None, None, None]
     for h, rep, nm in zip(probes['histories'], pres['reports'], names):
         for r in rep:
             if r['kind'] in ('interference', 'shared-object', 'pack-impure'):
